@@ -22,6 +22,7 @@ def run(ctx):
                 "E-DDDMP.deadcheck: no overflow check relies on checked_shl with a constant amount.")
     n = etaint.run(ctx, F)
     ctx.floor("E-DDDMP.taint", "index / subtraction / allocation sinks examined", n, 25)
+    etaint.check_prefix_direction(ctx, F)
     n = etaint.check_dead_overflow_checks(ctx, F)
     ctx.floor("E-DDDMP.deadcheck", "oxidd-dump bodies scanned", n, 100)
     ctx.explain("E-DDDMP.strict: every sortedness validation of an id list in the importer rejects equal neighbours "
